@@ -26,8 +26,11 @@ def snapshot(fx):
 
 
 class Proc:
-    def __init__(self, fx, n, api, park=None, prefix=None):
+    def __init__(self, fx, n, api, park=None, prefix=None, deaf=False):
+        """deaf: nobody reads the invocation's standard error (a pipe whose reading end is closed): whatever it wanted
+        to say there is lost, its exit status is all there is"""
         self.fx, self.n, self.api = fx, n, api
+        self.deaf = deaf
         self.trace = os.path.join(fx.root, "trace-%d.ndjson" % n)
         self.cmd = "cmd%d" % n
         env = {"MONORAIL_VERIF_TRACE": self.trace}
@@ -46,7 +49,13 @@ class Proc:
             args = ["out", "delete", "--all"]
         self.kill_ts = -1
         self.spawn_ts = time.monotonic_ns()
-        self.p = fx.spawn(args, env=env, prefix=prefix)
+        if deaf:
+            r_, w_ = os.pipe()
+            os.close(r_)
+            self.p = fx.spawn(args, env=env, prefix=prefix, stderr=w_)
+            os.close(w_)
+        else:
+            self.p = fx.spawn(args, env=env, prefix=prefix)
         self.exit_ts = -1
         self.rc = None
         self.err = ""
@@ -66,7 +75,7 @@ class Proc:
             so, se = self.p.communicate()
         self.exit_ts = time.monotonic_ns()
         self.rc = self.p.returncode
-        for line in se.decode("utf-8", "replace").splitlines():
+        for line in (se or b"").decode("utf-8", "replace").splitlines():
             try:
                 e = json.loads(line)
                 if e.get("kind") == "error":
@@ -94,7 +103,7 @@ class Proc:
             pass
         return {"p": self.n, "api": self.api, "spawn_ts": self.spawn_ts, "exit_ts": self.exit_ts, "acquired_ts": acq,
                 "releasing_ts": rel, "kill_ts": self.kill_ts, "trying_ts": trying, "held_after_try_ms": -1,
-                "rc": self.rc if self.rc is not None else -9, "err": self.err, "helpers": helpers, "changed": changed}
+                "rc": self.rc if self.rc is not None else -9, "err": self.err, "errlost": self.deaf, "helpers": helpers, "changed": changed}
 
     def trying(self):
         try:
@@ -139,7 +148,7 @@ def parked_scenario(bins, idx, spec, rng):
         snap0 = snapshot(fx)
         losers = []
         # contenders start while the holder is parked right after acquisition (it has not mutated anything yet)
-        batch = [Proc(fx, nxt(), a) for a in spec["contenders"]]
+        batch = [Proc(fx, nxt(), a, deaf=(idx % 2 == 1 and k == 0)) for k, a in enumerate(spec["contenders"])]
         for c in batch:
             c.wait()
         snap1 = snapshot(fx)
